@@ -175,16 +175,47 @@ func runQuotaGuard(c *core.Ctx) {
 	fr := an.SymFrame("len("+setPath+")", sym)
 	rs, n, _ := fr.ReachSet(req, rej.Block(), nil, nil)
 	c.CountPaths(n)
-	c.Check(sym != "" && strings.HasPrefix(sym, "recv.") && rs.Equal(an.Range(1, an.PosInf)) && an.InstrDominates(mu, an.LastInstr(rej.Block())), nil, fname(c, req), "reject-set", P.Pos(rej.Pos()),
-		"after inserting the id: rejected iff len(set) ∈ "+rs.Format("N")+" with N = "+sym, "rejected when len(set) ∈ "+rs.Format("N")+" (N = "+sym+"), want (N,+∞) measured after inserting the id: more (or fewer) than N subscriptions can be open")
-	// the reject edge removes the same id
-	okDel := false
-	for _, d := range mapDeletesOn(req, ".subs") {
-		if an.PathOf(d.Call.Args[1]) == id && (d.Block() == rej.Block() || d.Block().Dominates(rej.Block())) && !(d.Block() == fwd.Block() || d.Block().Dominates(fwd.Block())) {
-			okDel = true
+	preCheck := false
+	// the same quota as a pre-check: `if !set[id] && len(set) >= N { reject }; set[id] = true` — a new id is
+	// refused when the set is already full, an id that is already open passes; nothing to take back
+	{
+		notMember := false
+		for _, g := range an.Guards(req, rej.Block()) {
+			var lk *ssa.Lookup
+			want := false
+			switch x := g.V.(type) {
+			case *ssa.Lookup:
+				lk = x
+			case *ssa.Extract:
+				if l2, isL := x.Tuple.(*ssa.Lookup); isL && x.Index == 1 {
+					lk = l2
+				}
+			}
+			if lk != nil && an.PathOf(lk.X) == setPath && an.PathOf(lk.Index) == id && g.True == want {
+				notMember = true
+			}
+		}
+		insertOnlyWhenForwarded := !(mu.Block() == rej.Block() || mu.Block().Dominates(rej.Block())) && (mu.Block() == fwd.Block() || mu.Block().Dominates(fwd.Block()))
+		if notMember && insertOnlyWhenForwarded && len(mapDeletesOn(req, ".subs")) == 0 {
+			c.Check(sym != "" && strings.HasPrefix(sym, "recv.") && rs.Equal(an.Range(0, an.PosInf)), nil, fname(c, req), "reject-set", P.Pos(rej.Pos()),
+				"before inserting the id: a new id is rejected iff len(set) ∈ "+rs.Format("N")+" with N = "+sym+"; an id that is already open passes",
+				"a new id is rejected when len(set) ∈ "+rs.Format("N")+" (N = "+sym+"), want [N,+∞) measured before inserting it: more (or fewer) than N subscriptions can be open")
+			c.OK(nil, fname(c, req), "reject-releases", P.Pos(rej.Pos()), "the id is entered only on the forwarding path: a rejected REQ leaves nothing behind")
+			preCheck = true
 		}
 	}
-	c.Check(okDel, nil, fname(c, req), "reject-releases", P.Pos(rej.Pos()), "the rejected id is removed again (and only on the rejecting path)", "a rejected REQ keeps its id in the set (or an accepted one loses it): the quota leaks slots / never fills")
+	if !preCheck {
+		c.Check(sym != "" && strings.HasPrefix(sym, "recv.") && rs.Equal(an.Range(1, an.PosInf)) && an.InstrDominates(mu, an.LastInstr(rej.Block())), nil, fname(c, req), "reject-set", P.Pos(rej.Pos()),
+			"after inserting the id: rejected iff len(set) ∈ "+rs.Format("N")+" with N = "+sym, "rejected when len(set) ∈ "+rs.Format("N")+" (N = "+sym+"), want (N,+∞) measured after inserting the id: more (or fewer) than N subscriptions can be open")
+		// the reject edge removes the same id
+		okDel := false
+		for _, d := range mapDeletesOn(req, ".subs") {
+			if an.PathOf(d.Call.Args[1]) == id && (d.Block() == rej.Block() || d.Block().Dominates(rej.Block())) && !(d.Block() == fwd.Block() || d.Block().Dominates(fwd.Block())) {
+				okDel = true
+			}
+		}
+		c.Check(okDel, nil, fname(c, req), "reject-releases", P.Pos(rej.Pos()), "the rejected id is removed again (and only on the rejecting path)", "a rejected REQ keeps its id in the set (or an accepted one loses it): the quota leaks slots / never fills")
+	}
 	// CLOSE frees the slot and is forwarded
 	cm := ""
 	for _, p := range cls.Params {
